@@ -11,6 +11,8 @@ UNITS = [
     (MAC, "Mac._mac2db"), (MAC, "Mac.mapping"),
     (IP, "IPv6._ip2db"), (IP, "IPv6.mapping"),
     (KM, "Keyword.mapping"),
+    # the constructors establish the database invariants the *_2db functions preserve (base case of the induction over the call history)
+    (HN, "Hostname.__init__"), (HN, "Hostname._domains2db"), (IP, "IPv4.__init__"),
 ]
 # C09-L1 (contracts only): in a database whose values are pairwise distinct per key (the invariant every _ip2db call preserves)
 # two originals with different numbers have different keys, hence different substitutes when int2ip is injective
@@ -27,8 +29,10 @@ LEMMAS = [dict(
 NOT_CARRIED = ["the textual substitution on the line (str.replace chains in parse_line), including collisions between an issued substitute "
                "and a later original on one line",
                "hash functions (sha1) and inet_aton / inet_ntoa are assumed deterministic / mutually inverse",
-               "Hostname.__init__ (the system's own name enters the database at construction) and parse_line are not under contract",
-               "that the invariants hold over any call history is the pre/post pair of each *_2db function (induction over the history is the meta-step)"]
+               "Hostname.__init__ / IPv4.__init__ are under contract (they establish the database invariants: exactly the system's own name under its hashed "
+               "substitute; an empty IPv4 database); the parse_line methods (textual substitution) are not",
+               "that the invariants hold over any call history: established by the constructors (Hostname, IPv4), preserved by each *_2db function (pre/post pair); "
+               "induction over the history is the meta-step"]
 
 
 def bounded(check):
